@@ -26,8 +26,8 @@ func genU32(t *rapid.T, label string) uint32 {
 	return rapid.SampledFrom([]uint32{0, 0, 1, 2, 4, 10, 100, 1000, 1<<31 - 1, 1 << 31, 1<<32 - 1}).Draw(t, label)
 }
 
-var methodNames = []string{"/svc/A", "/svc/B", "/svc/A", "", "/é/ü", "/x\n\"y\\"}
-var keyPaths = []string{"key", "", "a.b.c", "name", "ключ", "k\"q"}
+var methodNames = []string{"/svc/A", "/svc/B", "/svc/A", "", "/é/ü", "/x\n\"y\\", "/svc/Get%20Item", "/100%"}
+var keyPaths = []string{"key", "", "a.b.c", "name", "ключ", "k\"q", "k%d", "%s.%v"}
 
 func genConfig(t *rapid.T) *pb.ApiConfig {
 	m := &pb.ApiConfig{}
